@@ -11,7 +11,7 @@ func init() {
 	register("C16", propMeta{
 		Explanation: "Decides QED's share of backup/restore, which is plumbing around RocksDB's backup engine: (R1) the version recorded with a backup is the decimal rendering of Version()-1, read and handed on under the node lock, and the store passes that string and its own database to the engine; (R2) a backup identifier travels unchanged and without truncation from the management request to the engine (parsed at 32 bits where it is converted to uint32), restore-by-id uses the given id and directories; " +
 			"(R3) the listing visits every index below the engine's count and copies id, timestamp, size, file count and metadata of the same index; (R4) routing: POST /backup creates, DELETE /backup deletes, GET /backups lists; (R5) a node opened on a restored directory rebuilds its caches exactly from what it reads.",
-		Added:       "Also (R5) recovery-level tiles are persisted whenever cached and at the level the rebuild reads; (R6) a restore does not keep the directory's old write-ahead logs.",
+		Added:       "Also (R5) recovery-level tiles are persisted whenever cached and at the level the rebuild reads; (R6) a restore does not keep the directory's old write-ahead logs. Third round: (R7) what a backup can capture is a whole number of applied bulks: one atomic store write per bulk (imports the C07.R1/R3 instances) and no write bypassing the write-ahead log, which Backup relies on because it does not flush; (R2) RestoreFromBackup hands db and wal directories over in their own positions.",
 		Assumptions: []string{"RocksDB's backup engine captures a consistent point-in-time image"},
 		Declined:    "that the restored node contains exactly the first v+1 events, continues at v+1 and verifies old snapshots (RocksDB backup semantics + C01/C05 at run time); consistency of a backup taken concurrently with Apply.",
 	}, runC16)
@@ -27,12 +27,17 @@ func runC16(c *Ctx) {
 	// R1
 	cb := p.MustMethod(pkgConsensus, "RaftNode", "CreateBackup")
 	{
-		calls := callsIn(cb, func(k *ssa.CallCommon) bool { return k.IsInvoke() && k.Method.Name() == "Backup" })
+		rg := p.RegionOf(cb, 3)
+		rcalls := rg.Calls(func(k *ssa.CallCommon) bool { return k.IsInvoke() && k.Method.Name() == "Backup" })
+		var calls []ssa.Instruction
+		for _, ri := range rcalls {
+			calls = append(calls, ri.in)
+		}
 		var why []string
 		if len(calls) != 1 {
 			why = append(why, fmt.Sprintf("%d Backup calls", len(calls)))
 		} else {
-			md := p.XLocal(p.TermOf(callCommon(calls[0]).Args[0]), cb)
+			md := p.XLocal(rg.Term(rcalls[0].site, callCommon(calls[0]).Args[0]), cb)
 			v, ok := decimalOf(md)
 			if ok {
 				ok = v.Op == "binop" && v.Name == "-" && v.Args[1].Name == "1" && v.Args[0].Op == "call" && v.Args[0].Fn != nil && v.Args[0].Fn.Name() == "Version" && v.Args[0].Args[0].IsField("balloon", isParam(cb, 0))
@@ -69,13 +74,26 @@ func runC16(c *Ctx) {
 				return
 			}
 			found = true
-			t := p.TermOf(cc.Args[0])
-			ok := t.Op == "extract" && t.Idx == 0 && t.Args[0].Op == "call" && t.Args[0].Fn != nil && t.Args[0].Fn.Name() == "ParseUint"
-			if !ok {
+			t := p.XLocal(p.TermOf(cc.Args[0]), del)
+			// the value handed on is the first result of ParseUint (possibly through a parsing helper,
+			// whose failure alternatives the handler answers 400 for)
+			var pu *Term
+			for _, alt := range t.Alts() {
+				alt = alt.Strip()
+				if alt.Op == "const" {
+					continue
+				}
+				if alt.Op == "extract" && alt.Idx == 0 && alt.Args[0].Op == "call" && alt.Args[0].Fn != nil && alt.Args[0].Fn.Name() == "ParseUint" && pu == nil {
+					pu = alt.Args[0]
+					continue
+				}
+				pu = nil
+				break
+			}
+			if pu == nil {
 				why = append(why, "the id handed to the node is "+t.String()+", expected the parsed backupID parameter")
 				return
 			}
-			pu := t.Args[0]
 			if !(pu.Args[2].Op == "const" && (pu.Args[2].Name == "32" || pu.Args[2].Name == "16" || pu.Args[2].Name == "8")) {
 				why = append(why, "the id is parsed at bit size "+pu.Args[2].Name+" and then converted to uint32: larger values wrap around and name a different, existing backup")
 			}
